@@ -252,8 +252,8 @@ def distinguish(chk, kind, cached, fresh, path_syms, user_prods, why, r):
     cands += [[t.symbol for t in s] for s in streams + muts]
     for c in cands:
         tl = [pt.Token(s, s, None) for s in c if s != lr1dump.lr1mod().END_OF_INPUT]
-        a = lr1dump.real_parse(cached, list(tl), lambda x: 0, lambda x: 0)
-        b = lr1dump.real_parse(fresh, list(tl), lambda x: 0, lambda x: 0)
+        a = lr1dump.real_parse(cached, list(tl), lambda x: 0, lambda x: 0, limit=60)
+        b = lr1dump.real_parse(fresh, list(tl), lambda x: 0, lambda x: 0, limit=60)
         ka, kb = result_key(a[1], a[2]), result_key(b[1], b[2])
         if ka != kb:
             chk.violation("input", {
@@ -362,8 +362,8 @@ def check_kind(chk, tier, kind, stats, model_ok, lines, checks):
             res_used, exc_used = parse(t1), None
         except Exception as e:
             res_used, exc_used = None, e
-        line_c, res_c, exc_c = lr1dump.real_parse(cached, t2, sym, code)
-        line_f, res_f, exc_f = lr1dump.real_parse(fresh, t3, sym, code)
+        line_c, res_c, exc_c = lr1dump.real_parse(cached, t2, sym, code, limit=60)
+        line_f, res_f, exc_f = lr1dump.real_parse(fresh, t3, sym, code, limit=60)
         w = [t.symbol for t in toks]
         chk.count()
         stats["streams_" + kind] = stats.get("streams_" + kind, 0) + 1
@@ -415,8 +415,8 @@ def search(chk):
         streams, muts = token_streams("thorough", kind, r)
         for k, toks in enumerate(streams + muts):
             keep = k < len(streams)
-            a = lr1dump.real_parse(cached, fresh_tokens(toks, keep), lambda x: 0, lambda x: 0)
-            b = lr1dump.real_parse(fresh, fresh_tokens(toks, keep), lambda x: 0, lambda x: 0)
+            a = lr1dump.real_parse(cached, fresh_tokens(toks, keep), lambda x: 0, lambda x: 0, limit=60)
+            b = lr1dump.real_parse(fresh, fresh_tokens(toks, keep), lambda x: 0, lambda x: 0, limit=60)
             ka, kb = result_key(a[1], a[2]), result_key(b[1], b[2])
             if ka != kb:
                 chk.violation("input", {"input": " ".join(t.symbol for t in toks), "which": kind,
